@@ -23,6 +23,10 @@
 // Satisfy / RangesFromExpression show (c = as coded at the pin, f = with the proposed fix,
 // x = neither), probed once per process on two fixed witnesses; the Lean driver
 // models that behaviour. Payloads are described at each run* function.
+// The resource bookkeeping of makeTaskForMesosResources (emptiness test before Min(), static
+// ranges claimed first, cpus/mem subtracted: notes/C05.fix-3/4/5) is NOT probed: the driver
+// models the code as it is (Placement.codeCfg), facts.go ties that to the source, and a tree
+// without one of the repairs disagrees with the model on concrete inputs.
 package c05
 
 import (
@@ -165,6 +169,21 @@ func portsNode(rs mesos.Resources) *sx.Node {
 		return sx.A("-")
 	}
 	return rangesNode(p)
+}
+
+// scalarNode: what is left of a scalar resource, in quarter units; - if no resource of that name is left
+func scalarNode(rs mesos.Resources, name string) *sx.Node {
+	sum, found := 0.0, false
+	for _, r := range rs {
+		if r.GetName() == name && r.GetScalar() != nil {
+			sum += r.GetScalar().GetValue()
+			found = true
+		}
+	}
+	if !found {
+		return sx.A("-")
+	}
+	return sx.I(quarters(sum))
 }
 
 func yq(s string) string { return strconv.Quote(s) } // a Go-quoted ASCII string is a valid YAML double-quoted scalar
@@ -348,7 +367,8 @@ func taskNode(t *task.Task, ti *mesos.TaskInfo, nInbound int) *sx.Node {
 	return sx.L(dyn, sx.U64(cmd.ControlPort), sx.I(quarters(cpu)), sx.I(quarters(mem)), portsNode(ti.Resources))
 }
 
-// payload: (ok DYN CTRL CPU MEM REQUEST REMAINING TODECLINE) | (nil REMAINING TODECLINE) | (panic)
+// payload: (ok DYN CTRL CPU MEM REQUEST REMAINING REMCPU REMMEM TODECLINE) | (nil REMAINING TODECLINE) | (panic)
+// REMAINING/REMCPU/REMMEM = what the caller's view of the offer's resources holds afterwards (the offer had 100 cpus, 100000 MB)
 func runMk(in *sx.Node) (obs string, err error) {
 	defer func() {
 		if r := recover(); r != nil {
@@ -382,20 +402,33 @@ func runMk(in *sx.Node) (obs string, err error) {
 	}
 	n := sx.L(sx.A("ok"))
 	n.Add(taskNode(t, ti, in.At(2).At(4).Len()).List...)
-	n.Add(portsNode(remaining), sx.B(toDecline))
+	n.Add(portsNode(remaining), scalarNode(remaining, "cpus"), scalarNode(remaining, "mem"), sx.B(toDecline))
 	return wrap(n), nil
 }
 
-// roundCrashRisk: could a port draw find no port (unrecovered panic inside a goroutine)?
-// Conservative: every offer must hold, above 29999, one port per TCP channel and per descriptor.
+// roundCrashRisk: could a port draw find no port (on a tree without notes/C05.fix-3: unrecovered panic inside a
+// goroutine)? Conservative: every offer must hold, above 29999, one port per TCP channel and per descriptor, on top of
+// the static ports the descriptors' templates claim there (they are taken out of the offer before the draws).
 func roundCrashRisk(in *sx.Node) bool {
 	need := 0
 	for _, d := range in.At(4).List {
 		need++
 		if ci := d.At(1); ci.Str() != "-" && ci.Int() < in.At(1).Len() {
-			for _, c := range in.At(1).At(ci.Int()).At(4).List {
+			cl := in.At(1).At(ci.Int())
+			for _, c := range cl.At(4).List {
 				if c.Bool() {
 					need++
+				}
+			}
+			if rs, err := port.RangesFromExpression(cl.At(3).Str()); err == nil {
+				for _, r := range rs {
+					if r.End >= 30000 && r.End >= r.Begin {
+						b := r.Begin
+						if b < 30000 {
+							b = 30000
+						}
+						need += int(r.End-b) + 1
+					}
 				}
 			}
 		}
